@@ -352,9 +352,8 @@ def analyse_pp(src):
 MANY = 99
 # (magic, index) -> reads per path allowed beyond the default of 1; "dyn" = a read whose index/key is not a literal
 ARG_READS_ALLOWED = {
-    # OPEN DEFECT fixes/C03-ifexist-empty-title-named-lookup.diff: `return args.get(args[2], "")` looks up a NAMED
-    # argument called like the value of the third argument; with {{#ifexist:|a|3}} that is the third argument again
-    ("#IFEXIST", "dyn"): 1,
+    # (empty since the #ifexist empty-title defect was fixed in /repo: `return args.get(args[2], "")` had looked up a
+    # NAMED argument called like the value of the third argument)
 }
 
 
